@@ -183,7 +183,8 @@ def collect(n, strats):
         nP = sum(1 for k in kinds if k in ("PERMIT", "EXECUTE", "PERMIT+conf"))
         nB = sum(1 for k in kinds if k == "BLOCK")
         nA = sum(1 for k in kinds if k in ("FAILURE", "UNKNOWN", "raise"))
-        c.observe("decision", r.decision.name)
+        # the Bayesian product chain is float arithmetic: a posterior exactly on the threshold may round either way
+        c.observe("decision", r.decision.name, float_derived=strat is VotingStrategy.BAYESIAN)
         c.check("C06.f", r.total_votes == n and len(r.votes) == n and r.permit_votes == nP and r.block_votes == nB and r.abstain_votes == nA,
                 {"what": "reported counts differ from the ballots cast / abstaining or failed voters counted as support",
                  "reported": [r.total_votes, r.permit_votes, r.block_votes, r.abstain_votes], **info})
